@@ -100,6 +100,7 @@ def run(ctx):
                        "variable frames rules 011-111 without; truncated frames only as variable frames",
                        "VCF count compared only when its length is non-zero; out-of-range VCF counts / frame lengths are not judged",
                        "a pointer-bearing TFDF whose declared length cannot hold the pointer is unjudged"]
+    ctx.symbolic_laws(['Law_Uslp'])
     ctx.replay_vectors("MC_Codec", "MC_Codec.cfg", perform, "grid", classify, consts='CONSTANT Area = "uslp"',
                        need_actions=("PickVector",))
     ctx.validate_events(events(ctx), "calls", classify, shard=2000)
